@@ -140,9 +140,17 @@ func genC16(t *rapid.T) C16Case {
 	}
 	names := costNames(tree)
 	pool := []float64{1, 0, -1, 5, 7, 10, 50, 1000, -100, 2, 3}
-	if rapid.IntRange(0, 5).Draw(t, "hugecosts") == 0 {
+	switch rapid.IntRange(0, 7).Draw(t, "hugecosts") {
+	case 0:
 		// very large entries, pairwise distinct and exact in float64 (sums stay below 2^53)
 		pool = []float64{1, 0, 1e13, 1e14, 3e12, -1e13, 5, 2e12, 1000, 1e14, 1e13}
+	case 1:
+		// fractional entries (multiples of 1/8, so every sum is exact): costs that differ by less than 1
+		pool = []float64{0.5, 0.25, 5.5, 4.75, 6, -0.75, 1.125, 7.375, 2.5, 0.125, 1000.5, 5.25, 5.75}
+	case 2:
+		// astronomic entries, far beyond any integer type (sums are no longer exact: the cost model
+		// of the tie law is not consulted for these cases, the model-free laws are)
+		pool = []float64{1, 0, 1e30, 1e25, -1e30, 3e19, 1e19, 5, -2e19, 1e22, 7}
 	}
 	for _, n := range names {
 		p := 8
@@ -399,7 +407,13 @@ func checkC16(c C16Case, r *Rec) *Violation {
 		}
 		// (ii') ties between operands of different shape, by the calibrated cost model (see c16_costmodel.go)
 		costModel.calibrate()
-		if costModel.isValid() {
+		astronomic := false
+		for _, ce := range c.Costs {
+			if math.Abs(ce.F()) >= 1e15 {
+				astronomic = true
+			}
+		}
+		if costModel.isValid() && !astronomic {
 			cm := costMap(c.Costs)
 			fast := base&MaskFast != 0
 			tieSeen := false
@@ -516,8 +530,11 @@ func checkC16(c C16Case, r *Rec) *Violation {
 		// (iv) a huge cost puts every operand mentioning X after all that do not; the others keep their order
 		hugeCost := 1e12
 		for _, ce := range c.Costs {
-			if math.Abs(ce.F()) >= 1e9 {
+			if math.Abs(ce.F()) >= 1e9 && hugeCost < 1e18 {
 				hugeCost = 1e18 // "sufficiently large" is relative to what the other entries can add up to
+			}
+			if math.Abs(ce.F()) >= 1e15 {
+				hugeCost = 1e36
 			}
 		}
 		huge := withCost(c.Costs, c.X, func(float64, bool) float64 { return hugeCost })
@@ -607,7 +624,7 @@ var _ = eval.Reordering
 
 var propC16 = Prop[C16Case]{
 	ID:    "C16",
-	Rule:  "trees with wide and/or nodes (2..40 operands, 60 thorough) whose operands are drawn from a few shapes over pairwise distinct variables (so identity is trackable and many operands have equal estimated cost while others differ), nested and/or, and/or below xor / if, arithmetic and comparison operators with operands of different cost; integer-valued cost maps with per-name, class-default and negative entries; a name X and delta in {1,5,1000}. Metamorphic oracles, for all 8 settings of the other three optimizations: (i) Dump with Reordering on = Dump with it off up to permutation of and/or operands; (ii) operands equal up to renaming of equally priced variables keep source order; (iii) under M[X+=delta] no operand mentioning X overtakes one that does not; (iv) under M[X:=1e12] (1e18 when other entries are very large: one case in six draws entries of 1e12..1e14) all non-mentioning operands precede all mentioning ones and keep their relative order; (v) effects and result = short-circuit evaluation of the dumped order; (vii) entries for names that do not occur in the program (other spellings of its operators, unused variables, keywords) change nothing. Non-trivial = an and/or node with >= 2 operand shapes and at least one (mentions X, does not) pair; distinct by source + costs + X",
+	Rule:  "trees with wide and/or nodes (2..40 operands, 60 thorough) whose operands are drawn from a few shapes over pairwise distinct variables (so identity is trackable and many operands have equal estimated cost while others differ), nested and/or, and/or below xor / if, arithmetic and comparison operators with operands of different cost; integer-valued cost maps with per-name, class-default and negative entries; a name X and delta in {1,5,1000}. Metamorphic oracles, for all 8 settings of the other three optimizations: (i) Dump with Reordering on = Dump with it off up to permutation of and/or operands; (ii) operands equal up to renaming of equally priced variables keep source order; (iii) under M[X+=delta] no operand mentioning X overtakes one that does not; (iv) under M[X:=1e12] (1e18 / 1e36 when other entries are very large: one case in eight draws entries of 1e12..1e14, one in eight fractional entries - multiples of 1/8 - and one in eight entries of 1e19..1e30) all non-mentioning operands precede all mentioning ones and keep their relative order; (v) effects and result = short-circuit evaluation of the dumped order; (vii) entries for names that do not occur in the program (other spellings of its operators, unused variables, keywords) change nothing. Non-trivial = an and/or node with >= 2 operand shapes and at least one (mentions X, does not) pair; distinct by source + costs + X",
 	Gen:   genC16,
 	Check: checkC16,
 }
